@@ -414,6 +414,18 @@ def refusal_threshold(prog, t, sc, lx, which_max, min_param):
         if d is None:
             return None
         d = strip(d)
+        if d.kind == 'discr' and strip(d.args[0]) is not None and strip(d.args[0]).kind == 'call' and strip(d.args[0]).callee_name() in ('checked_ilog2', 'checked_sub'):
+            # the None side of `X.checked_ilog2()` is X == 0; of `len.checked_sub(c)` is len < c: a handful of points at most
+            cal = strip(d.args[0])
+            tt = b.mir['blocks'][blk]['term']
+            none_t = [tb for v_, tb in tt.get('targets', []) if v_ == 0]
+            is_none = (none_t and none_t[0] == succ) or (not none_t and tt.get('otherwise') == succ and 0 not in [v_ for v_, _ in tt.get('targets', [])])
+            if is_none:
+                la = lin(prog, t, cal.args[0], {})
+                dd = la.add(atom(('param', which_max)), -1).add(atom(('param', min_param)), 1)
+                if dd.is_const() and -8 <= dd.c <= 8:
+                    return 'small'
+            return None
         tr = edge_truth(b.mir['blocks'][blk]['term'], succ)
         if tr is None or d.kind != 'bin' or d.args[0] not in ('Lt', 'Le', 'Gt', 'Ge'):
             return None
@@ -442,13 +454,46 @@ def refusal_threshold(prog, t, sc, lx, which_max, min_param):
                         pts_bound = c_.args[0] - dd.c + 1
                     if pts_bound is not None and pts_bound <= 16:
                         return 'small'
+                    # the other side of such a guard: a lower bound on the point count; 17 points and more have bitlen(max - min) >= 5
+                    low = None
+                    if o == 'Gt':
+                        low = c_.args[0] - dd.c + 1 + 1            # points - 1 + dd.c > c  ->  points >= c - dd.c + 2
+                    elif o == 'Ge':
+                        low = c_.args[0] - dd.c + 1
+                    if low is not None and low >= 17:
+                        return 'ge'
         return None
+    def infeasible(blk, succ):
+        """an edge no execution takes: `0 <= u` false (the lower end of a range pattern on an unsigned value)"""
+        d = b.switch_discr.get(blk)
+        if d is None:
+            return False
+        d = strip(d)
+        tr = edge_truth(b.mir['blocks'][blk]['term'], succ)
+        if tr is None or d.kind != 'bin':
+            return False
+        x, y = strip(d.args[1]), strip(d.args[2])
+        rawty = {id(x): (d.args[1].ty or ''), id(y): (d.args[2].ty or '')}
+        uns = lambda v: (v.ty or '').strip() in ('usize', 'u64', 'u32', 'u16', 'u8') or rawty.get(id(v), '').strip() in ('usize', 'u64', 'u32', 'u16', 'u8')
+        if d.args[0] == 'Le' and x.is_const(0) and uns(y):
+            return not tr
+        if d.args[0] == 'Ge' and y.is_const(0) and uns(x):
+            return not tr
+        if d.args[0] == 'Lt' and y.is_const(0) and uns(x):
+            return tr
+        if d.args[0] == 'Gt' and x.is_const(0) and uns(y):
+            return tr
+        return False
     for ret in b.cfg.returns:
         paths = bypass_paths(t, set(), ret)
+        if globals().get('DEBUG'):
+            print('paths', paths, [(x, y, classify(x, y)) for x in b.switch_discr for y in set(b.cfg.succ[x])])
         if paths is None:
             return 'undecided: cannot enumerate the paths of the constructor'
         for pth in paths:
             edges = set(zip(pth, pth[1:]))
+            if any(infeasible(x, y) for x, y in edges):
+                continue
             kinds = {classify(x, y) for x, y in edges} - {None}
             vals = resolve_phi(b.ret_val[ret], edges, {})
             for rv in vals:
@@ -488,6 +533,8 @@ def exponent_source(prog, fn, sc):
     if P.kind == 'bin' and P.args[0].startswith('Add'):
         a, b2 = unov(P.args[1]), unov(P.args[2])
         for x, y in ((a, b2), (b2, a)):
+            if x.kind == 'load' and 'as:Some' in [str(e_) for e_ in x.args[1]] and strip(x.args[0]) is not None and strip(x.args[0]).kind == 'call' and strip(x.args[0]).callee_name() == 'checked_ilog2':
+                x = strip(x.args[0])          # `checked_ilog2()? + 1`: the payload of the Some side
             if x.kind == 'call' and x.callee_name() in ('ilog2', 'checked_ilog2') and y.kind == 'const' and y.args[0] == 1:
                 return x.args[0], ''
     # P = BITS - leading_zeros(X)
